@@ -26,6 +26,7 @@ type deferred struct {
 	reach string
 	args  []Val
 	fnv   Val
+	bind  []Val // values of the captured variables of a deferred closure
 }
 
 type loopInfo struct {
@@ -168,7 +169,13 @@ func (c *Ctx) exec(fn *ssa.Function, args []Val, st0 *State, reach0 string, dept
 		fr.env[p] = args[i]
 	}
 	if len(fn.FreeVars) > 0 {
-		bail("closure with free variables")
+		if c.pendingBindings == nil || len(c.pendingBindings) != len(fn.FreeVars) {
+			bail("closure with free variables")
+		}
+		for i, fv := range fn.FreeVars {
+			fr.env[fv] = c.pendingBindings[i]
+		}
+		c.pendingBindings = nil
 	}
 	back := backEdges(fn)
 	if depth > 0 && len(back) > 0 {
@@ -215,6 +222,10 @@ func (c *Ctx) exec(fn *ssa.Function, args []Val, st0 *State, reach0 string, dept
 		reach := conds[0]
 		if len(conds) > 1 {
 			reach = c.name("R", "Bool", or(conds...))
+			if c.reachParts == nil {
+				c.reachParts = map[string][]string{}
+			}
+			c.reachParts[reach] = append([]string{}, conds...)
 		}
 		st := c.mergeStates(conds, sts)
 		if li, ok := fr.loops[b.Index]; ok {
@@ -847,7 +858,8 @@ func (c *Ctx) genCands(fr *Frame, li *loopInfo, st *State) []cand {
 func (c *Ctx) autoVariant(fr *Frame, li *loopInfo, st *State, reach string, pos token.Pos) {
 	// measures are evaluated on header-entry state (recorded in variantEntry) and on the back edge state.
 	ve := c.variantEntry[li.header]
-	if ve == nil {
+	if len(ve) == 0 {
+		c.oblige("variant", fmt.Sprintf("loop%d", li.ordinal), reach, "false", pos, "no termination measure could be inferred (write: loop N decreases ...)")
 		return
 	}
 	var alts []string
